@@ -428,8 +428,8 @@ def match_eval_rule(ctx, R, mod):
              Mem(x), Mem(y), Mem(x, 16), Mem(x, 32, fs), Mem(x, 32, Id('gs', 16)), Sl(x, 0, 8), Sl(x, 8, 16), Sl(x, 0, 16), Sl(y, 0, 8),
              Cond(x, y, z), Cond(x, y, y), Cond(x, x, y), Comp((Sl(x, 0, 8), 0, 8), (Sl(y, 0, 24), 8, 32)), Comp((Sl(x, 0, 16), 0, 16), (Sl(y, 0, 16), 16, 32)),
              Comp((Sl(x, 0, 8), 0, 8), (Sl(x, 0, 24), 8, 32)), Op('+', Mem(x), Int(1)), Op('+', Mem(x, 32, fs), Int(1)), Mem(Op('+', x, Int(1))), Cond(Op('-', x), Op('-', x, y), y),
-             Aff(x, Op('+', y, Int(1))), Aff(Mem(x), y)]
-    pats = [wa, x, Int(1), Op('+', wa, wb), Op('+', wa, wa), Op('+', wa, y), Op('+', x, wb), Op('*', wa, wb), Op('+', wa, wb, z), Op('-', wa), Op('-', wa, wb),
+             Aff(x, Op('+', y, Int(1))), Aff(Mem(x), y), Id('y', 8), Id('a', 8)]
+    pats = [Id('a', 8), Mem(wa, 32, Id('b', 16)), wa, x, Int(1), Op('+', wa, wb), Op('+', wa, wa), Op('+', wa, y), Op('+', x, wb), Op('*', wa, wb), Op('+', wa, wb, z), Op('-', wa), Op('-', wa, wb),
             Mem(wa), Mem(wa, 16), Mem(wa, 32, fs), Mem(wa, 32, wb), Mem(x, 32, wb), Sl(wa, 0, 8), Sl(wa, 8, 16), Sl(wa, 0, 16), Cond(wa, wb, z), Cond(wa, wb, wb), Cond(wa, wa, wb),
             Comp((wa, 0, 8), (wb, 8, 32)), Comp((wa, 0, 16), (wb, 16, 32)), Comp((wa, 0, 8), (wb, 8, 24)), Comp((wa, 0, 8), (wb, 4, 32)), Comp((wa, 0, 8)), Comp((Sl(wa, 0, 8), 0, 8), (Sl(wa, 0, 24), 8, 32)), Op('+', Mem(wa), wb), Mem(Op('+', wa, wb)),
             Cond(Op('-', wa), Op('-', wa, wb), wb), Aff(wa, Op('+', wb, Int(1))), Aff(Mem(wa), wb)]
@@ -534,7 +534,10 @@ def match_eval_rule(ctx, R, mod):
                     # failure although a binding exists for a pattern of the same shape
                     bad.setdefault(('fails', shape(m)[0]), (e, m, want))
             elif isinstance(out, dict):
-                if subst(m, out) != e:
+                if any(not any(k_ == w_ for w_ in tks) for k_ in out):
+                    # a binding for a node that is not one of the wildcards (a literal identifier that shares a wildcard's name but not its width / kind)
+                    bad.setdefault(('unsound', m.__dict__['_kind'], 'binds-a-literal'), (e, m, out))
+                elif subst(m, out) != e:
                     bad.setdefault(('unsound', m.__dict__['_kind'], 'repeated' if want is None and shape(e) == shape(m) else shape(e) == shape(m)), (e, m, out))
             else:
                 bad.setdefault(('result-type', type(out).__name__), (e, m, out))
